@@ -278,6 +278,36 @@ def deep_trees(res):
             res.violation(f"TreeSchema on the tree of an expression nested {depth} levels deep raised {type(e).__name__}", {"kind": "deep-tree", "depth": depth})
 
 
+def leaf_families(res):
+    """histories: trees that differ in ONE token of one leaf (repeatability, key, time condition, indicator spelling) are round-tripped one after the other
+    in one process, in both orders - a round trip is a function of the object, not of what was dumped or loaded before"""
+    import ahb  # noqa: F401
+    from ahbicht.expressions.ahb_expression_parser import parse_ahb_expression_to_single_requirement_indicator_expressions
+    from ahbicht.expressions.condition_expression_parser import parse_condition_expression_to_tree
+    from ahbicht.json_serialization.tree_schema import TreeSchema
+    rng = random.Random(seed() * 31 + 19)
+    pk = rng.randint(1, 99)
+    k = rng.randint(1, 400)
+    family = [f"[{pk}P]", f"[{pk}P0..1]", f"[{pk}P1..5]", f"[{pk}P0..1] U [{k}]", f"[{pk}P] U [{k}]", f"[{pk}P1..5] U [{k}]", f"[{pk}]", f"[{pk}] U [{k}]",
+              "[UB1]", "[UB2]", "[UB3]", f"[UB1] U [{k}]", f"[UB2] U [{k}]", f"[{k}]", f"[{k}0]", f"[{k}] X [{k}]", f"[{k}] X [{k}0]",
+              f"[{k}][9{pk:02d}]", f"[{k}][9{(pk % 98) + 1:02d}]"]
+    ahb_family = [f"Muss [{k}]", f"muss [{k}]", f"M [{k}]", f"Soll [{k}]", f"Muss [{k}] Kann", f"Muss [{k}] Soll", f"X [{k}]", f"x [{k}]", f"Muss [{pk}P0..1]", f"Muss [{pk}P]"]
+    objs = [(e, parse_condition_expression_to_tree(e)) for e in family] + \
+           [(e, parse_ahb_expression_to_single_requirement_indicator_expressions(e)) for e in ahb_family]
+    for order, seq in (("as listed", objs), ("reversed", objs[::-1]), ("shuffled", rng.sample(objs, len(objs)))):
+        for e, tree in seq:
+            res.count("round_trips")
+            case = {"kind": "leaf-family", "string": e, "order": order, "family": [x for x, _ in seq]}
+            try:
+                back = roundtrip(TreeSchema, tree)
+            except BaseException as ex:  # pylint:disable=broad-except  # noqa: BLE001
+                res.violation(f"TreeSchema cannot load what it dumped for the tree of {e!r} ({order}): {type(ex).__name__}", case)
+                continue
+            if back != tree:
+                res.violation(f"round trip of the tree of {e!r} changed it into {back!r} after the trees of {[x for x, _ in seq][:seq.index((e, tree))]} "
+                              f"had been round-tripped in the same process", case)
+
+
 def shipped_fc_results(res):
     """evaluated format constraints as the SHIPPED date-time constraints 931-935 produce them (GermanTime.tla's domain and the edges of the representable
     range, other strings) alone and inside a content evaluation result"""
@@ -333,6 +363,7 @@ def run():
     with mp.get_context("fork").Pool(16) as pool:
         merge(res, pool.map(_worker, jobs, chunksize=1))
     deep_trees(res)
+    leaf_families(res)
     shipped_fc_results(res)
     res.coverage["traces_validated_against_impl"] = res.coverage.get("round_trips", 0)
     res.coverage["evaluations"] = res.coverage.get("evaluations", 0) + res.coverage.get("round_trips", 0)
